@@ -484,6 +484,11 @@ var pinnedProbes = []pinned{
 	{"for (var i = 0, j = a instanceof b in c;;);", 18, false, false},
 	{"for (x = a >= b + c in d;;);", 18, false, false},
 	{"for (x = (a < b in c);;);", 19, true, true},
+	{"function f(a,){}", 20, false, true},
+	{"x = function(a, b,){ return a };", 20, false, true},
+	{"x = {set p(v,){}};", 20, false, true},
+	{"function f(,a){}", 20, false, false},
+	{"function f(a,,b){}", 20, false, false},
 	{"x = /a/ g", 15, false, true},
 	{"x = /a/\ng", 15, false, true},
 	// fixed finding C04-switch-unterminated (ceb8c0d): regression cases, the ES5 verdict is expected now
@@ -528,6 +533,7 @@ func main() {
 	}
 	h.literalStream()
 	h.sourceMapStream()
+	h.parseFunctionStream()
 	h.staticMatrix()
 	h.escapeStream()
 	h.noInStream()
